@@ -152,6 +152,11 @@ def leaf_instances():
         "Vmap(scalar cond mapped)": bj.Vmap(bj.AdditiveCondition(lambda c: c, (), ()), axis_size=3, in_axes_condition=0),
         "Chain(scalar cond)": bj.Chain([bj.Exp((2,)), bj.AdditiveCondition(lambda c: c, (2,), ())]),
     }
+    from harness.userext import UserAffine, UserShift          # the checks are installed by the base class: user subclasses get them too
+    made["user-defined UserAffine"] = UserAffine(jnp.zeros((2, 3)), jnp.ones((2, 3)))
+    made["user-defined UserShift (conditional)"] = UserShift(jnp.ones(3), (2,))
+    made["user-defined UserShift (scalar condition)"] = UserShift(jnp.ones(2), ())
+    made["Chain of user-defined"] = bj.Chain([UserAffine(jnp.zeros(3), jnp.ones(3)), UserShift(jnp.ones(3), (2,))])
     from flowjax.bijections.block_autoregressive_network import _CallableToBijection
     from flowjax.bijections.planar import _UnconditionalPlanar
     made["_CallableToBijection"] = _CallableToBijection(jnp.tanh)
